@@ -106,7 +106,17 @@ TrQuiesce ==
                                  /\ R.disk_bytes = SumLen(F))
   /\ UNCHANGED vars
 
-TraceNext == \/ TrReset \/ TrStart \/ TrFind \/ TrOpen \/ TrRmState \/ TrRmFile \/ TrWrite \/ TrCommit
+\* C12, item files renamed to another *valid* item name (same length and checksum, another chunk range or key).  This
+\* is outside the damage classes the property quantifies over, and outside the item universe of the model: the range is
+\* recorded nowhere but in the name, so the format cannot tell such a file from a genuine one and the bytes it serves are
+\* not judged.  What is judged is the "never a panic" clause: the re-open and every read return (hit, miss or error).
+TrRenamed ==
+  /\ IsEvent("CcRenamed")
+  /\ R.reopen \in {"ok", "err"}
+  /\ \A i \in 1..Len(R.gets) : R.gets[i].res \in {"hit", "miss", "err"}
+  /\ UNCHANGED vars
+
+TraceNext == \/ TrReset \/ TrRenamed \/ TrStart \/ TrFind \/ TrOpen \/ TrRmState \/ TrRmFile \/ TrWrite \/ TrCommit
              \/ TrDel \/ TrRet \/ TrPlantJunk \/ TrClose \/ TrDamage \/ TrPlant \/ TrDelOpen \/ TrReopen \/ TrQuiesce
 TraceSpec == TraceInit /\ [][TraceNext]_tvars
 
